@@ -39,7 +39,13 @@ def with_declared_types(case):
     have = {v for v, _ in types}
     for f, dom in case.get("fin", {}).items():
         if f not in have:
-            types.append((f, "Finite(" + ", ".join(H.fr_str(Fr(d)) for d in dom) + ")"))
+            vals = sorted(Fr(d) for d in dom)
+            if len(vals) >= 2 and all(v.denominator == 1 for v in vals) and vals == [vals[0] + i for i in range(len(vals))] \
+                    and (len(f) + len(vals)) % 2 == 0:
+                # the other documented way to declare a finite type
+                types.append((f, f"FiniteRange({vals[0]}, {vals[-1]})"))
+            else:
+                types.append((f, "Finite(" + ", ".join(H.fr_str(Fr(d)) for d in dom) + ")"))
     p["types"] = types
     c = dict(case)
     c["program"] = p
